@@ -137,6 +137,14 @@ def gen_case(rng, tier, i):
             ops.append({"op": "rm", "path": rng.choice([p for p, _ in leaves] + maps[1:])})
         else:
             ops.append({"op": "dupadd", "path": rng.choice([p for p, _ in leaves] + maps[1:]), "prio": rng.choice([1, 2, 3])})
+    # option lists that grow after construction (its own generator: the cases of earlier rounds stay as they were): the
+    # option list is the live list the parameter hands out; an option added to it is an option
+    import random as _random
+    r2 = _random.Random(7919 * i + len(ops))
+    for path, kind in leaves:
+        if kind == "sel" and r2.random() < 0.6:
+            at = r2.randrange(len(ops), len(ops) + 1)
+            ops.insert(at, {"op": "optadd", "path": path, "value": "late%d" % r2.randint(1, 3)})
     return {"ops": ops}
 
 
@@ -527,6 +535,27 @@ def run_case(case, ctx):
                                  {"op_index": opi, "op": op, "spec": node.spec, "exc": repr(err)})
                         return
                     flags["rej_set"] += 1
+            elif name == "optadd":
+                node = root.find(op["path"])
+                if node is None or node is root or node.kind != "sel" or op["value"] in node.obj.options:
+                    continue
+                live = node.obj.options
+                live.append(op["value"])
+                node.spec = dict(node.spec, options=list(node.spec["options"]) + [op["value"]])
+                ctx.count("options_added_after_construction")
+                if node.ro:
+                    continue
+                try:
+                    node.obj.set_value(op["value"])
+                except InvariantBroken:
+                    raise
+                except Exception as e:
+                    ctx.viol(f"valid-set-rejected:obj:sel-option-added-later:{type(e).__name__}", {"op_index": opi, "op": op, "options": list(live), "exc": repr(e)})
+                    return
+                node.value = op["value"]
+                if node.obj.value != op["value"]:
+                    ctx.viol("accepted-set-not-stored:sel-option-added-later", {"op_index": opi, "op": op, "now": repr(node.obj.value)})
+                    return
             elif name == "get":
                 node = root.find(op["path"])
                 ctx.count("gets")
